@@ -13,8 +13,15 @@
 EXTENDS DesignPowerRule
 
 CONSTANTS Configs,     \* set of [mode, slope (milli), ref, lo, hi, step, prefTot]
-          Profiles,    \* set of OMS profiles [t0, amps : Seq([L, Ln, nxt, inVoa, uGain, uDp, uVoa, uVar, pmax, flatx, autoVoa])]
+          Profiles,    \* set of OMS profiles [ing, t0, tx, dpref, amps : Seq([L, Ln, nxt, inVoa, uGain, uDp, uVoa, uVar,
+                       \*                                                     pmax, pmaxSet, flatx, autoVoa])]
           VoaGrid      \* candidate automatic VOA values
+
+(* The OMS starts at a ROADM (ing = 0), whose egress target puts the reference channel at pref + t0, or directly at a   *)
+(* transceiver (ing = 1) that transmits tx dBm: t0 is then tx - pref.  dpref shifts the reference power of the profile  *)
+(* (and with it the total design power) away from the configuration's.  An amplifier whose model is auto-selected may   *)
+(* end up with any of the library's eligible models: pmaxSet holds their p_max (which one is C10's business), the step  *)
+(* picks one and the clauses are stated for the model in place.                                                        *)
 
 VARIABLES cfg,      \* the design configuration (fixed along a behaviour)
           oms,      \* the OMS being designed   (fixed along a behaviour)
@@ -22,25 +29,29 @@ VARIABLES cfg,      \* the design configuration (fixed along a behaviour)
           prevNet,  \* net offset the channel has when it enters the span in front of amplifier i+1
           pLine,    \* LEDGER: power of the reference channel relative to pref at the current point of the line,
                     \*         obtained by physically applying every loss, gain and VOA crossed so far
-          out       \* designed settings: Seq([gain, dp, voa])
+          out       \* designed settings: Seq([gain, dp, voa, pmax of the model in place])
 vars == <<cfg, oms, i, prevNet, pLine, out>>
+
+T0 == IF oms.ing = 1 THEN oms.tx - oms.dpref ELSE oms.t0          \* offset of the channel leaving the ingress
+C  == [cfg EXCEPT !.prefTot = cfg.prefTot + oms.dpref]            \* the configuration at this profile's reference power
 
 Init == /\ cfg \in Configs
         /\ oms \in Profiles
         /\ i = 0
-        /\ prevNet = oms.t0
-        /\ pLine = oms.t0
+        /\ prevNet = T0
+        /\ pLine = T0
         /\ out = <<>>
 
 DesignAmp ==
     /\ i < Len(oms.amps)
-    /\ LET a == oms.amps[i + 1] IN
-       \E t \in Targets(cfg, a, prevNet) : \E rho \in RhoSet(cfg, a, t) :
-       \E v \in AutoVoaSet(cfg, a, t.g0 - rho, t.dp0 - rho, rho, VoaGrid) :
+    /\ \E pm \in oms.amps[i + 1].pmaxSet :                           \* p_max of the model in place
+       LET a == [oms.amps[i + 1] EXCEPT !.pmax = pm] IN
+       \E t \in Targets(C, a, prevNet) : \E rho \in RhoSet(C, a, t) :
+       \E v \in AutoVoaSet(C, a, t.g0 - rho, t.dp0 - rho, rho, VoaGrid) :
           LET gain == t.g0 - rho + v
               dp   == t.dp0 - rho + v
               voa  == VoaU(a) + v
-          IN /\ out' = Append(out, [gain |-> gain, dp |-> dp, voa |-> voa])
+          IN /\ out' = Append(out, [gain |-> gain, dp |-> dp, voa |-> voa, pmax |-> pm])
              /\ prevNet' = dp - voa
              /\ pLine' = pLine - a.L - a.inVoa + gain - voa          \* span, input VOA, amplifier, output VOA
              /\ i' = i + 1
@@ -52,22 +63,22 @@ Spec == Init /\ [][Next]_vars
 -----------------------------------------------------------------------------
 (* The clauses of C09 (DesignPowerRule, tolerance 0) over everything designed so far.                          *)
 Designed     == 1..Len(out)
-A(k)         == oms.amps[k]
-PrevNetOf(k) == IF k = 1 THEN oms.t0 ELSE NetOf(out[k - 1])
+A(k)         == [oms.amps[k] EXCEPT !.pmax = out[k].pmax]
+PrevNetOf(k) == IF k = 1 THEN T0 ELSE NetOf(out[k - 1])
 
 Closure               == \A k \in Designed : ClosureAt(A(k), out[k], PrevNetOf(k), 0)
-PowerRule             == \A k \in Designed : PowerRuleAt(cfg, A(k), out[k], 0)
-ZeroBeforeRoadm       == \A k \in Designed : ZeroBeforeRoadmAt(cfg, A(k), out[k], 0)
-ReductionOnlyAsNeeded == \A k \in Designed : ReductionOnlyAsNeededAt(cfg, A(k), out[k], 0)
-OperatorOffsetKept    == \A k \in Designed : OperatorOffsetKeptAt(cfg, A(k), out[k], 0)
-OperatorGainKept      == \A k \in Designed : OperatorGainKeptAt(cfg, A(k), out[k], 0)
+PowerRule             == \A k \in Designed : PowerRuleAt(C, A(k), out[k], 0)
+ZeroBeforeRoadm       == \A k \in Designed : ZeroBeforeRoadmAt(C, A(k), out[k], 0)
+ReductionOnlyAsNeeded == \A k \in Designed : ReductionOnlyAsNeededAt(C, A(k), out[k], 0)
+OperatorOffsetKept    == \A k \in Designed : OperatorOffsetKeptAt(C, A(k), out[k], 0)
+OperatorGainKept      == \A k \in Designed : OperatorGainKeptAt(C, A(k), out[k], 0)
 VoaKept               == \A k \in Designed : VoaKeptAt(A(k), out[k], 0)
-NeverAboveMaxOutput   == \A k \in Designed : NeverAboveMaxOutputAt(cfg, A(k), out[k], 0)
+NeverAboveMaxOutput   == \A k \in Designed : NeverAboveMaxOutputAt(C, A(k), out[k], 0)
 
 \* "the reference channel leaves every amplifier at reference power + its power offset": the LEDGER, which applies
 \* every loss, input VOA, gain and output VOA crossed so far, agrees with the design's own target.  This is the
 \* noise-free form of DesignLoadReproduces (the trace specification states it on propagated powers).
-RefChannelAtTarget == pLine = (IF i = 0 THEN oms.t0 ELSE NetOf(out[i]))
+RefChannelAtTarget == pLine = (IF i = 0 THEN T0 ELSE NetOf(out[i]))
 
 TypeOK == /\ i \in 0..Len(oms.amps)
           /\ Len(out) = i
